@@ -8,7 +8,7 @@ rows = []
 for d in sorted(glob.glob(os.path.join(VERIF, "seeded", "*-*"))):
     meta = json.load(open(os.path.join(d, "meta.json")))
     title = open(os.path.join(d, "README.md")).readline().strip().lstrip("# ").strip()
-    title = re.sub(r"^C\d\d\s*/\s*(change |mutation )?[A-F]\s*:\s*", "", title)
+    title = re.sub(r"^C\d\d\s*/\s*(change |mutation )?[A-R]\s*:\s*", "", title)
     out = meta.get("check_output_with", "")
     kinds = []
     for line in out.splitlines():
